@@ -1,8 +1,21 @@
-//! `hn nucleo FILE`: every line is one history over a fresh `Nucleo` (1 pool thread, 1 column):
+//! `hn nucleo FILE`: every line is one history over a fresh `Nucleo` (1 pool thread, 2 matcher columns):
 //!   push T H G   spawn injector thread T pushing item G through handle H (parks at its start gate)
-//!   st T         step thread T (first: up to push.reserved, second: publishes, notifies and returns)
+//!   ext T H G0 N S C  spawn injector thread T calling Injector::extend through handle H with the N items
+//!                G0, G0+S, G0+2S, ...; it parks at extend.reserved (all N indices reserved by one fetch_add) and then
+//!                before publishing the items number C, 2C, ... of the batch (C = N: the whole batch in one step)
+//!   st T         step thread T (push: first up to push.reserved, second: publishes, notifies and returns R<idx>;
+//!                ext: first up to extend.reserved, then one chunk of C publications per step; the last step also
+//!                notifies and returns E<first idx>).  The notify callback checks, when it is called on an injector
+//!                thread, that everything that call injects is already reserved, counted by injected_items() and
+//!                readable; the result gets a suffix `!notify(...)` otherwise (never produced by the model).
 //!   inj H | clone H H2 | dropinj H
-//!   edit P A     reparse column 0 with pattern P of the pool, append flag A
+//!   edit P A     switch to entry P of the pattern pool (a PAIR of column texts): every column whose text differs
+//!                from the current entry is reparsed; A=1 (only generated when every changed column is a truthful
+//!                append) reparses them with append=true; A=0 reparses each changed column with its own truthful
+//!                flag (old text is a prefix of the new one) unless all of them are appends, in which case all get
+//!                append=false (an extension typed without the hint).  If no column differs column 0 is reparsed
+//!                with flag A.  The combined status (max over the columns) is Update iff A=1 (and nothing stronger
+//!                is pending), else Rescore - which is what the model's single EEdit computes.
 //!   restart C
 //!   tick Z       begin Nucleo::tick on the UI thread (timeout 0 if Z=0 else 10 s); parks at tick.begin
 //!   ut           step the UI thread to its next yield point (or completion)
@@ -17,19 +30,115 @@ use std::io::{BufRead, Write};
 use std::sync::atomic::{AtomicUsize, Ordering};
 use std::sync::Arc;
 
-pub const PATTERNS: [&str; 7] = ["", "a", "ab", "abc", "b", "x", "ab c"];
-pub const TEXTS: [&str; 12] = ["a", "ab", "abc", "b", "xab", "a b c", "cab", "zzz", "abx", "ba", "aXbXc", "cba/abc"];
+pub const NCOLS: usize = 2;
+/// pattern pool: (column 0 text, column 1 text); ids 0..=6 are the one-column pool of the earlier harness
+pub const PATTERNS: [(&str, &str); 14] = [
+    ("", ""),
+    ("a", ""),
+    ("ab", ""),
+    ("abc", ""),
+    ("b", ""),
+    ("x", ""),
+    ("ab c", ""),
+    ("", "p"),
+    ("a", "p"),
+    ("ab", "q"),
+    ("a", "pq"),
+    ("b", "p"),
+    ("ab", "p"),
+    ("a", "q"),
+];
+/// text pool: (column 0, column 1); entry k + 12 has the column 0 text of entry k (same score and column 0
+/// length under a pattern whose column 1 is empty) and a column 1 text of a different length
+pub const TEXTS: [(&str, &str); 24] = [
+    ("a", "p"),
+    ("ab", "q"),
+    ("abc", "pq"),
+    ("b", ""),
+    ("xab", "qq"),
+    ("a b c", "p q"),
+    ("cab", "qp"),
+    ("zzz", "pp"),
+    ("abx", "q"),
+    ("ba", "pqr"),
+    ("aXbXc", ""),
+    ("cba/abc", "qqqq"),
+    ("a", "qqq"),
+    ("ab", ""),
+    ("abc", "p"),
+    ("b", "pq"),
+    ("xab", ""),
+    ("a b c", "q"),
+    ("cab", "pppp"),
+    ("zzz", "q"),
+    ("abx", "qpqp"),
+    ("ba", ""),
+    ("aXbXc", "pq"),
+    ("cba/abc", "p"),
+];
+
+fn fill(v: &u64, cols: &mut [nucleo::Utf32String]) {
+    let (c0, c1) = TEXTS[(*v as usize) % TEXTS.len()];
+    cols[0] = c0.into();
+    cols[1] = c1.into();
+}
 
 pub fn table() {
+    // score: the real MultiPattern::score over both columns; length: the TOTAL length of the matcher columns
     let mut matcher = nucleo::Matcher::new(Config::DEFAULT);
     for (p, pat) in PATTERNS.iter().enumerate() {
-        let pattern = nucleo::pattern::Pattern::parse(pat, CaseMatching::Smart, Normalization::Smart);
+        let mut pattern = nucleo::pattern::MultiPattern::new(NCOLS);
+        pattern.reparse(0, pat.0, CaseMatching::Smart, Normalization::Smart, false);
+        pattern.reparse(1, pat.1, CaseMatching::Smart, Normalization::Smart, false);
         for (t, text) in TEXTS.iter().enumerate() {
-            let hay = nucleo::Utf32String::from(*text);
-            let sc = pattern.score(hay.slice(..), &mut matcher);
-            println!("{} {} {} {}", p, t, sc.map_or("-".to_string(), |s| s.to_string()), hay.len());
+            let hay = [nucleo::Utf32String::from(text.0), nucleo::Utf32String::from(text.1)];
+            let sc = pattern.score(&hay, &mut matcher);
+            println!("{} {} {} {}", p, t, sc.map_or("-".to_string(), |s| s.to_string()), hay[0].len() + hay[1].len());
         }
     }
+}
+
+/// what the notify callback needs to know when it runs on an injector thread
+struct InjCtx {
+    inj: Arc<Injector<u64>>,
+    n: u64,
+    calls: u32,
+    bad: Option<String>,
+}
+thread_local! { static INJ: std::cell::RefCell<Option<InjCtx>> = std::cell::RefCell::new(None); }
+
+fn inj_begin(inj: &Arc<Injector<u64>>, n: u64) {
+    INJ.with(|c| *c.borrow_mut() = Some(InjCtx { inj: inj.clone(), n, calls: 0, bad: None }));
+}
+/// suffix for the result of a push / extend thread: empty iff notify was called exactly once, after the items were visible
+fn inj_end() -> String {
+    INJ.with(|c| match c.borrow_mut().take() {
+        Some(ctx) => match (ctx.calls, ctx.bad) {
+            (_, Some(b)) => format!("!notify({})", b),
+            (0, None) => "!notify(never)".to_string(),
+            (1, None) => String::new(),
+            (k, None) => format!("!notify({}_calls)", k),
+        },
+        None => String::new(),
+    })
+}
+/// called from the notify callback (on whatever thread calls it)
+fn inj_notified() {
+    INJ.with(|c| {
+        if let Some(ctx) = c.borrow_mut().as_mut() {
+            ctx.calls += 1;
+            let cnt = ctx.inj.injected_items() as u64;
+            match sched::reserved() {
+                None => ctx.bad = Some(format!("before_reserve,injected_items={},batch={}", cnt, ctx.n)),
+                Some(st) => {
+                    let unread = (st..st + ctx.n).filter(|&i| ctx.inj.get(i as u32).is_none()).count();
+                    if cnt < st + ctx.n || unread > 0 {
+                        ctx.bad = Some(format!("early,first={},batch={},injected_items={},unreadable={}", st, ctx.n, cnt, unread));
+                    }
+                }
+            }
+        }
+    });
 }
 
 struct Ptr(*mut Nucleo<u64>);
@@ -38,6 +147,8 @@ unsafe impl Send for Ptr {}
 fn site_id(s: &str) -> &'static str {
     match s {
         "push.reserved" => "res",
+        "extend.reserved" => "ext_res",
+        "extend.before_publish" => "ext_pub",
         "tick.begin" => "begin",
         "tick.before_lock" => "before_lock",
         "tick.before_try_lock" => "before_try",
@@ -89,10 +200,15 @@ pub fn run(file: &str) {
             Config::DEFAULT,
             Arc::new(move || {
                 n2.fetch_add(1, Ordering::SeqCst);
+                inj_notified();
             }),
             Some(1),
-            1,
+            NCOLS as u32,
         ));
+        let mut cur_pid: usize = 0;
+        // a `run` step found no parked run after the full wait: only a step of the UI thread can spawn one, so until
+        // then further `run` steps do not wait again (keeps diverging histories cheap)
+        let mut norun = false;
         let nptr = &mut *nucleo as *mut Nucleo<u64>;
         let mut injectors: HashMap<u64, Arc<Injector<u64>>> = HashMap::new();
         let mut threads: HashMap<u64, sched::Thread> = HashMap::new();
@@ -117,10 +233,42 @@ pub fn run(file: &str) {
                             threads.insert(
                                 t,
                                 sched::spawn(IGNORE_PUSH.to_vec(), move || {
-                                    let idx = inj.push(g, |v, cols| {
-                                        cols[0] = TEXTS[(*v as usize) % TEXTS.len()].into();
-                                    });
-                                    format!("R{}", idx)
+                                    inj_begin(&inj, 1);
+                                    let idx = inj.push(g, fill);
+                                    format!("R{}{}", idx, inj_end())
+                                }),
+                            );
+                            obs.push("-".into());
+                        }
+                        None => obs.push("NOINJ".into()),
+                    }
+                }
+                "ext" => {
+                    let t: u64 = p[1].parse().unwrap();
+                    let h: u64 = p[2].parse().unwrap();
+                    let g0: u64 = p[3].parse().unwrap();
+                    let n: u64 = p[4].parse().unwrap();
+                    let step: u64 = p.get(5).map_or(1, |x| x.parse().unwrap());
+                    let chunk: u64 = p.get(6).map_or(n, |x| x.parse().unwrap()).max(1);
+                    match injectors.get(&h) {
+                        Some(inj) => {
+                            let inj = inj.clone();
+                            let filter: sched::Filter = Arc::new(move |site, arg| {
+                                if site == "extend.before_publish" {
+                                    let k = arg - sched::reserved().unwrap_or(0);
+                                    k > 0 && k % chunk == 0
+                                } else {
+                                    true
+                                }
+                            });
+                            threads.insert(
+                                t,
+                                sched::spawn_filtered(vec!["alloc.before_cas"], Some(filter), move || {
+                                    let values: Vec<u64> = (0..n).map(|k| g0 + k * step).collect();
+                                    inj_begin(&inj, n);
+                                    inj.extend(values.into_iter(), fill);
+                                    let sfx = inj_end();
+                                    format!("E{}{}", sched::reserved().map_or("?".to_string(), |x| x.to_string()), sfx)
                                 }),
                             );
                             obs.push("-".into());
@@ -157,7 +305,19 @@ pub fn run(file: &str) {
                     let pid: usize = p[1].parse().unwrap();
                     let app = p[2] == "1";
                     if ui.is_none() {
-                        nucleo.pattern.reparse(0, PATTERNS[pid], CaseMatching::Smart, Normalization::Smart, app);
+                        let old = [PATTERNS[cur_pid].0, PATTERNS[cur_pid].1];
+                        let new = [PATTERNS[pid].0, PATTERNS[pid].1];
+                        let changed: Vec<usize> = (0..NCOLS).filter(|&c| old[c] != new[c]).collect();
+                        if changed.is_empty() {
+                            nucleo.pattern.reparse(0, new[0], CaseMatching::Smart, Normalization::Smart, app);
+                        } else {
+                            let all_append = changed.iter().all(|&c| new[c].starts_with(old[c]));
+                            for &c in &changed {
+                                let flag = if app || all_append { app } else { new[c].starts_with(old[c]) };
+                                nucleo.pattern.reparse(c, new[c], CaseMatching::Smart, Normalization::Smart, flag);
+                            }
+                        }
+                        cur_pid = pid;
                     }
                     obs.push("-".into());
                 }
@@ -168,6 +328,7 @@ pub fn run(file: &str) {
                     obs.push("-".into());
                 }
                 "tick" => {
+                    norun = false;
                     if ui.is_none() {
                         let timeout: u64 = if p[1] == "0" { 0 } else { 10_000 };
                         let ptr = Ptr(nptr);
@@ -184,6 +345,7 @@ pub fn run(file: &str) {
                     }
                 }
                 "ut" => {
+                    norun = false;
                     let mut done = false;
                     match &ui {
                         Some(th) => {
@@ -203,8 +365,9 @@ pub fn run(file: &str) {
                 }
                 "run" => {
                     // the run must be parked (wait a little for the pool thread to reach run.start)
-                    match runner.wait_parked(2500) {
+                    match runner.wait_parked(if norun { 20 } else { 2500 }) {
                         St::Parked(site, _) => {
+                            norun = false;
                             runner.go();
                             if site == "run.done" {
                                 // the closure returns; the pool thread goes idle
@@ -225,7 +388,10 @@ pub fn run(file: &str) {
                                 obs.push(o);
                             }
                         }
-                        _ => obs.push("NORUN".into()),
+                        _ => {
+                            norun = true;
+                            obs.push("NORUN".into())
+                        }
                     }
                 }
                 "obs" => {
@@ -240,9 +406,12 @@ pub fn run(file: &str) {
                             let it = snap.get_matched_item(n).unwrap();
                             data.push(format!("{}", it.data));
                         }
-                        let ptxt: Vec<String> = snap.pattern().column_pattern(0).atoms.iter().map(|a| a.needle_text().to_string()).collect();
-                        let ptxt = ptxt.join(" ");
-                        let pid = PATTERNS.iter().position(|t| *t == ptxt).map_or(-1, |x| x as i64);
+                        let ptxt = |c: usize| -> String {
+                            let v: Vec<String> = snap.pattern().column_pattern(c).atoms.iter().map(|a| a.needle_text().to_string()).collect();
+                            v.join(" ")
+                        };
+                        let (p0, p1) = (ptxt(0), ptxt(1));
+                        let pid = PATTERNS.iter().position(|t| t.0 == p0 && t.1 == p1).map_or(-1, |x| x as i64);
                         obs.push(format!(
                             "O p={} c={} m={} d={} inj={} n={} u={}",
                             pid,
